@@ -223,6 +223,10 @@ def main(argv=None):
     unmet = list(mod.floors(m, a.tier)) if hasattr(mod, 'floors') else []
     if m['shards_failed']:
         # a watchdog / crash is inconclusive for the cases in flight; tolerated only below 1/8 of the shards
+        crashed = [n for n in m['notes'] if 'watchdog' not in n]
+        if crashed:
+            # a worker that died is a fault of this machinery: never folded into 'held'
+            unmet.append('%d shard worker(s) crashed: %s' % (len(crashed), crashed[0][-300:].replace('\n', ' | ')))
         if m['shards_failed'] * 8 > m['shards']:
             unmet.append('%d of %d shards failed' % (m['shards_failed'], m['shards']))
     wall = time.monotonic() - t0
